@@ -1,22 +1,23 @@
 #!/bin/bash
 # tools/iso_check.sh <patch|-> <ID> [<ID>...] — runs quick checks against an ISOLATED copy: a scratch
-# worktree of /repo (/tmp/iso-repo) with the patch applied and a copy of /verif (/tmp/iso-verif)
+# worktree of /repo (/tmp/iso-repo$T) with the patch applied and a copy of /verif (/tmp/iso-verif$T)
 # whose go.mod points at it.  /repo and /verif/evidence are not touched.  For development only;
 # registered commands always run /verif against /repo itself.
 set -u
 P="${1:-}"; shift
+T="${ISO_TAG:-}"; SRC="${ISO_SRC:-/verif}"   # ISO_TAG: suffix of the scratch directories (parallel runs); ISO_SRC: snapshot of /verif to use
 [ "$P" != "-" ] && P="$(readlink -f "$P")"
-git -C /repo worktree remove --force /tmp/iso-repo 2>/dev/null
-git -C /repo worktree add -q --detach /tmp/iso-repo HEAD || exit 2
-if [ "$P" != "-" ]; then ( cd /tmp/iso-repo && git apply "$P" ) || { echo "patch does not apply"; exit 2; }; fi
-rsync -a --delete --exclude .build --exclude .git --exclude replays /verif/ /tmp/iso-verif/
-sed -i 's|=> /repo|=> /tmp/iso-repo|' /tmp/iso-verif/go.mod
+git -C /repo worktree remove --force /tmp/iso-repo$T 2>/dev/null
+git -C /repo worktree add -q --detach /tmp/iso-repo$T HEAD || exit 2
+if [ "$P" != "-" ]; then ( cd /tmp/iso-repo$T && git apply "$P" ) || { echo "patch does not apply"; exit 2; }; fi
+rsync -a --delete --exclude .build --exclude .git --exclude replays "$SRC"/ /tmp/iso-verif$T/
+sed -i "s|=> /repo|=> /tmp/iso-repo$T|" /tmp/iso-verif$T/go.mod
 for id in "$@"; do
-  out=$(cd /tmp/iso-verif && VERIF_REPO=/tmp/iso-repo timeout 1800 ./run "$id" ${TIER:-quick} 2>&1); rc=$?
+  out=$(cd /tmp/iso-verif$T && VERIF_REPO=/tmp/iso-repo$T timeout 1800 ./run "$id" ${TIER:-quick} 2>&1); rc=$?
   if [ $rc -eq 1 ] && echo "$out" | grep -q "^VIOLATION property=$id"; then
     echo "DETECTED $id rc=$rc: $(echo "$out" | grep -m1 'class=')"
   else
     echo "missed   $id rc=$rc"; echo "$out" | tail -4
   fi
 done
-git -C /repo worktree remove --force /tmp/iso-repo
+git -C /repo worktree remove --force /tmp/iso-repo$T
